@@ -257,6 +257,10 @@ func WideFile() (protoreflect.FileDescriptor, error) {
 			{Name: proto.String("TONE_UNSPECIFIED"), Number: proto.Int32(0)},
 			{Name: proto.String("TONE_LOW"), Number: proto.Int32(1)},
 			{Name: proto.String("TONE_HIGH"), Number: proto.Int32(2)},
+			// the other declaration order of the short-name / prefixed-spelling collision (see Mode): TONE_X
+			// (short name X) first, then TONE_TONE_X (short name TONE_X): "TONE_X" must decode to 6, "X" to 5
+			{Name: proto.String("TONE_X"), Number: proto.Int32(5)},
+			{Name: proto.String("TONE_TONE_X"), Number: proto.Int32(6)},
 		},
 		Options: &descriptorpb.EnumOptions{},
 	}
